@@ -7,7 +7,7 @@
 (* pi = line of the event that holds the pre-state of the call (the        *)
 (* previous successful call or init).  Every event is one state.           *)
 (***************************************************************************)
-EXTENDS Schedule, SchedView, Json, IOUtils
+EXTENDS Swaps, SchedView, Json, IOUtils
 
 Rec == ndJsonDeserialize(IOEnv.TRACE)
 LoadIdx == {i \in DOMAIN Rec : Rec[i].ev = "load"}
@@ -145,6 +145,17 @@ EffectOK(N, A, B) ==
     [] E.op = "set_next_day_transitions" -> B = A
     [] OTHER -> FALSE
 P_C13_effect == (IsOp /\ E.ok) => EffectOK(NetE, Abs(PreS), Abs(E.S))
+
+\* fit_reassign is the greedy function FitRes of Swaps.tla (transcribed from fit_path_into_tour), not
+\* just some result allowed by the relation FitOK; it is refused exactly for the documented reasons
+IsFit == IsOp /\ E.op = "fit_reassign" /\ ~E.panic
+P_C13_fit_exact == (IsFit /\ E.ok) =>
+   LET X == FitRes(NetE, Abs(PreS), E.args.p, E.args.r, SegS, SegE)
+       B == Abs(E.S)
+   IN B.tours = X.tours /\ B.vtype = X.vtype /\ B.dum = X.dum /\ B.form = X.form
+P_C13_fit_refusal == IsFit =>
+   (E.ok <=> (/\ FitPre(NetE, Abs(PreS), E.args.p, E.args.r, SegS, SegE)
+              /\ FitFormOK(NetE, Abs(PreS), E.args.p, E.args.r, SegS, SegE)))
 
 \* rotation cycles: membership maintained unless the operation is documented to recompute
 CyclesEffectOK(N, A, B, ca, cb) ==
